@@ -59,6 +59,7 @@ type connState struct {
 	wakesDue   int // Wake requests accepted and not yet seen as OnTraffic
 	extraTraf  int
 	afterClose int
+	addrStr    string
 }
 
 type peerState struct {
@@ -134,6 +135,7 @@ type World struct {
 	stopEverAsked    bool
 	started          bool
 	regLost          []string
+	lcSnap           map[int]map[string]int
 	userFds          []int
 	dialQueue        []int
 	stopPending      int
@@ -239,6 +241,12 @@ func (w *World) nonTrivial() bool {
 		return w.probes["fd-number-reused"] > 0 || w.closedN > 0
 	case "C19":
 		return w.probes["control-calls"] > 0
+	case "C14":
+		return w.probes["registry-snapshots"] > 2 && w.closedN > 0
+	case "C15":
+		return w.probes["lb-sequences-checked"]+w.probes["lc-checks"] > 0 && w.openedN > 1
+	case "C17":
+		return w.probes["address-checks"] > 1
 	case "C18":
 		n := 0
 		for _, v := range w.faults {
@@ -326,6 +334,8 @@ func (w *World) run() {
 		k.EfdStart = ^uint64(0) - 3
 	}
 	k.SetFaults(p.Faults)
+	w.lcSnap = map[int]map[string]int{}
+	k.OnAccept = w.lcSnapshot
 	k.Trace = func(l string) { w.h.Add(l) }
 	if runner.Trace {
 		s.Log = func(l string) { w.h.Log = append(w.h.Log, l) }
@@ -425,6 +435,22 @@ func (w *World) events() []vsched.Event {
 	return evs
 }
 
+// inTransit: some connection has been accepted by the kernel (or is closing)
+// without the handler having seen the matching callback yet.
+func (w *World) inTransit() bool {
+	for _, ps := range w.peers {
+		if ps.connected && !ps.cp.Dial && w.conns[ps.idx] == nil && !ps.srv.Closed() {
+			return true
+		}
+	}
+	for _, n := range w.loopTasks {
+		if n > 0 {
+			return true
+		}
+	}
+	return false
+}
+
 func (w *World) connOfSock(sk *vsys.Sock) *connState {
 	for _, cs := range w.conns {
 		if cs != nil && cs.sock == sk {
@@ -481,15 +507,26 @@ func (w *World) requestStop() {
 // ---- peers ------------------------------------------------------------------
 
 func (w *World) peerAddr(i int) unix.Sockaddr {
+	j := i
+	if i < len(w.p.Conns) && w.p.Conns[i].AddrOf > 0 && w.p.Conns[i].AddrOf-1 < i {
+		j = w.p.Conns[i].AddrOf - 1 // re-use the address of an earlier peer
+	}
 	switch w.p.Cfg.Network {
 	case "unix":
 		return &unix.SockaddrUnix{Name: ""}
 	case "tcp6":
-		sa := &unix.SockaddrInet6{Port: 40000 + i}
-		copy(sa.Addr[:], net.ParseIP("::1").To16())
+		sa := &unix.SockaddrInet6{Port: 40000 + j}
+		if w.p.Cfg.Host == "[::1]" {
+			copy(sa.Addr[:], net.ParseIP("::1").To16())
+			return sa
+		}
+		// link-local peers: the zone id is the interface the packet came in on;
+		// index 9 does not exist in the interface table
+		copy(sa.Addr[:], net.ParseIP(fmt.Sprintf("fe80::%x", 2+j)).To16())
+		sa.ZoneId = []uint32{2, 2, 9, 7}[j%4]
 		return sa
 	default:
-		return &unix.SockaddrInet4{Port: 40000 + i, Addr: [4]byte{10, 0, byte(i >> 8), byte(i)}}
+		return &unix.SockaddrInet4{Port: 40000 + j, Addr: [4]byte{10, 0, byte(j >> 8), byte(j)}}
 	}
 }
 
@@ -517,6 +554,9 @@ func (w *World) peerEnabled(ps *peerState) bool {
 			return false
 		}
 		key := w.curKey()
+		if w.p.Cfg.Serial && w.inTransit() {
+			return false
+		}
 		return key != "" && w.k.Listening(key) && w.booted
 	}
 	if ps.pc >= len(ps.cp.Peer) {
@@ -763,6 +803,7 @@ func (w *World) finish() {
 	}
 	w.simNanos = w.s.SimNanos()
 	w.finalOracles()
+	w.lbOracle()
 	for k, v := range w.k.Stats {
 		w.probes[k] += v
 	}
